@@ -70,6 +70,7 @@ def generate(rng, index, cfg):
     tracked = set()
     ncommits = 0
     refs = []
+    links = {}     # path -> target: notebooks currently replaced by a symbolic link
     nops = rng.randint(5, cfg["max_ops"])
     seq = 0
 
@@ -190,6 +191,9 @@ def generate(rng, index, cfg):
                 ops.append({"op": "write_txt", "path": p, "text": "edited %d\n" % len(ops)})
         elif r < 0.42 and files:
             p = rng.choice(files)
+            if p in links.values():
+                continue
+            links.pop(p, None)
             ops.append({"op": "rm", "path": p})
             del work[p]
         elif r < 0.52 and files:
@@ -198,21 +202,37 @@ def generate(rng, index, cfg):
             # renames may cross the .ipynb extension boundary occasionally
             # (only notebook -> other name: a text file renamed to *.ipynb would be a "notebook" that is not JSON)
             q, _ = pick_path(nb=(kind == "nb") and rng.random() < 0.85)
-            if q not in work:
+            if q not in work and p not in links and p not in links.values():
                 via_git = p in tracked and rng.random() < 0.5
                 ops.append({"op": "git_mv" if via_git else "mv", "src": p, "dst": q})
                 work[q] = work.pop(p)
                 if via_git:
                     tracked.discard(p)
                     tracked.add(q)
+        elif r < 0.535 and files:
+            # a type change: a notebook replaced by a symbolic link to another notebook, or a link by a regular file
+            nbs = [f for f in files if work[f] == "nb" and f not in links and f not in links.values()]
+            if links and rng.random() < 0.4:
+                p = rng.choice(sorted(links))
+                del links[p]
+                ops.append({"op": "rm", "path": p})
+                ops.append({"op": "write_nb", "path": p, "nb": new_nb()})
+            elif len(nbs) >= 2:
+                p, q = rng.sample(nbs, 2)
+                links[p] = q
+                ops.append({"op": "symlink", "path": p, "target": q})
         elif r < 0.56 and files:
-            ops.append({"op": "chmod", "path": rng.choice(files)})     # a mode-only change
+            ops.append({"op": "chmod", "path": rng.choice([f for f in files if f not in links] or files)})     # a mode-only change
         elif r < 0.60 and files:
-            ops.append({"op": "git", "argv": ["add", "--", rng.choice(files)]})
+            # (-N: intent to add - the path is in the index with no content yet)
+            ops.append({"op": "git", "argv": ["add"] + (["-N"] if rng.random() < 0.25 else []) + ["--", rng.choice(files)]})
         elif r < 0.64:
             ops.append({"op": "git", "argv": ["add", "-A"]})
         elif r < 0.68 and tracked:
             p = rng.choice(sorted(tracked))
+            if p in links.values():
+                continue          # (no dangling links: what a notebook is that points nowhere is not C17's subject)
+            links.pop(p, None)
             ops.append({"op": "git", "argv": ["rm", "-q", "-f", "--cached" if rng.random() < 0.4 else "-f", "--", p]})
             tracked.discard(p)
         elif r < 0.80:
@@ -422,6 +442,13 @@ class Runner:
                     f.write("\n")
             elif k == "rm":
                 os.remove(os.path.join(w.work, op["path"]))
+            elif k == "symlink":
+                pth = os.path.join(w.work, op["path"])
+                if not os.path.isfile(os.path.join(w.work, op["target"])):
+                    raise OSError("target vanished")      # (minimisation dropped it: no dangling links)
+                os.remove(pth)
+                os.symlink(os.path.relpath(os.path.join(w.work, op["target"]), os.path.dirname(pth)), pth)
+                self.stat("ops_symlink")
             elif k == "chmod":
                 pth = os.path.join(w.work, op["path"])
                 os.chmod(pth, os.stat(pth).st_mode ^ 0o111)
